@@ -3,7 +3,7 @@ from props import _auto
 
 LEAN_MODULES = _auto.lean_modules("C04")
 VARIANTS = ['default']
-RULE = 'histories to depth 4 over {process, process_mut, seek, clone} with lengths straddling 64 in every phase; DRG request sequences over pre-filled buffers; non-trivial = non-empty data; distinct = distinct case lines'
+RULE = 'every history to depth 3 (quick) / 4 (thorough) over {process, process_mut, seek, clone, swap} with lengths straddling 64 for R=20 and the longest key of each of the 5 variants, and to depth 2 (quick) / 3 (thorough) once per remaining (R in {8,12,20}, key length in {16,32}); a first call of every length 0..63 followed by a call ending one byte before / on / one byte after the block boundary; seek from every offset 0..63; random deeper histories, partitions against the one-shot call, involution; DRG: every request sequence over {bytes<N>, fill_bytes, fill_slice, u32, u64} to depth 3 (both tiers, complete) over buffers pre-filled with 00 / ff / random for R=20 (thorough: depth 4 over zeroed buffers), to depth 2 for R=8 and R=12, u32/u64 from every offset 0..63 of the cached block, random request sequences for every R; non-trivial = non-empty data; distinct = distinct case lines'
 TRUSTED = ["hand-written Lean models (lean/CxVerif/Impl, Spec) tied to the code by the correspondence run and by tables re-extracted from /repo/src"]
 ASSUMPTIONS = ['data lengths < 2^64 per call (usize); `clone` independence is a correspondence obligation as in C02']
 gen = _auto.make_gen("C04")
